@@ -43,7 +43,7 @@ FILMS = ["box64", "box33", "box81", "ellipse", "circle", "tee", "notched", "resa
 HOLES = ["none", "circle", "two", "box"]
 
 
-HISTORIES = ("remesh_finer", "remesh_coarser", "translated_inplace", "copy_translated", "translation_context", "terminal_resized", "terminals_replaced", "smoothed_derived")
+HISTORIES = ("remesh_finer", "remesh_coarser", "translated_inplace", "copy_translated", "translation_context", "terminal_resized", "terminals_replaced", "smoothed_derived", "reloaded", "reloaded_compressed")
 
 
 def cases(tier, seed):
@@ -173,6 +173,23 @@ def run_case(case):
                 if "Malformed Voronoi cell" not in str(exc):
                     raise
                 res.count("smoothing_refused")
+        if hist in ("reloaded", "reloaded_compressed"):
+            # the checked device is one that was written to disk and read back (stored mesh arrays / recomputed from the triangulation)
+            import tdgl as _tdgl
+
+            if hist == "reloaded":
+                dev.to_hdf5("device.h5")
+                dev = _tdgl.Device.from_hdf5("device.h5")
+            else:
+                # the mesh alone, stored as its triangulation only and recomputed on load
+                import h5py as _h5py
+
+                from tdgl.finite_volume import Mesh as _Mesh
+
+                with _h5py.File("mesh.h5", "w") as f:
+                    dev.mesh.to_hdf5(f.create_group("mesh"), compress=True)
+                with _h5py.File("mesh.h5", "r") as f:
+                    dev.mesh = _Mesh.from_hdf5(f["mesh"])
         if hist == "translation_context":
             # moved and moved back by the documented context manager; a copy was taken while it was moved
             with dev.translation(1.7, -0.9):
